@@ -3,6 +3,7 @@ package main
 import (
 	"bufio"
 	"bytes"
+	"context"
 	"crypto/sha256"
 	"encoding/json"
 	"fmt"
@@ -268,6 +269,7 @@ func replayMain(args []string) {
 // ---------------------------------------------------------------- orchestrator
 
 type shardRun struct {
+	killed   bool // the watchdog had to kill the worker (it was still running long after the run deadline)
 	res      *WorkerResult
 	conform  []ConformRec
 	crashed  bool
@@ -321,7 +323,20 @@ func runWorker(def *CheckDef, tier string, shard, n int, deadline time.Time, ski
 	} else if err := cmd.Start(); err != nil {
 		die("start worker: %v", err)
 	}
+	// watchdog: workers stop by themselves soon after the deadline; one that is still alive two
+	// minutes later is stuck inside a single case
+	done := make(chan struct{})
+	go func() {
+		grace := 120 * time.Second
+		select {
+		case <-done:
+		case <-time.After(time.Until(deadline) + grace):
+			sr.killed = true
+			cmd.Process.Kill()
+		}
+	}()
 	err := cmd.Wait()
+	close(done)
 	if pr != nil {
 		wg.Wait()
 	}
@@ -431,9 +446,13 @@ func orchestrate(args []string) {
 				// the announced case killed the process
 				var cs interface{}
 				json.Unmarshal([]byte(sr.lastCase), &cs)
+				class, detail := "process-death", firstLines(sr.stderr, 6)
+				if sr.killed {
+					class, detail = "hang", "the worker was still inside this case two minutes after the deadline of the run and was killed"
+				}
 				mu.Lock()
-				crashViol = append(crashViol, Violation{Property: id, Oracle: "totality", Class: "process-death",
-					Case: cs, Detail: firstLines(sr.stderr, 6)})
+				crashViol = append(crashViol, Violation{Property: id, Oracle: "totality", Class: class,
+					Case: cs, Detail: detail})
 				mu.Unlock()
 				skip = sr.lastIdx + 1
 				merged.Exhaustive = false
@@ -488,11 +507,11 @@ func orchestrate(args []string) {
 				ok++
 			}
 		}
-		if ok == 0 && v.Class != "process-death" {
+		if ok == 0 && v.Class != "process-death" && v.Class != "hang" {
 			fmt.Fprintf(os.Stderr, "verif: %s: violation %s/%s did not reproduce in a fresh process (0/5): harness is flaky, no verdict\n  replay=%s\n", id, v.Oracle, v.Class, p)
 			os.Exit(2)
 		}
-		if ok < 5 && v.Class != "process-death" {
+		if ok < 5 && v.Class != "process-death" && v.Class != "hang" {
 			fmt.Fprintf(os.Stderr, "verif: %s: violation reproduced only %d/5 times: %s\n", id, ok, p)
 			os.Exit(2)
 		}
